@@ -1424,8 +1424,8 @@ func (vf *VFlow) CallArgSourcesByType(match func(ssa.CallInstruction) bool, isT 
 					found = true
 					out.addAll(vf.Labels(a), 0)
 				}
-				if ld, isLd := a.(*ssa.UnOp); isLd {
-					if al, isAl := ld.X.(*ssa.Alloc); isAl {
+				if al := paramObjectOf(a); al != nil {
+					{
 						for _, ref := range nonDebugRefs(al) {
 							if fa, isFA := ref.(*ssa.FieldAddr); isFA {
 								for _, r2 := range nonDebugRefs(fa) {
@@ -1508,4 +1508,19 @@ func (w *World) soleImplementation(com *ssa.CallCommon) *ssa.Function {
 		return nil
 	}
 	return w.Prog.MethodValue(sel)
+}
+
+// paramObjectOf: the local composite literal an argument hands over - by value (a load of it) or by pointer (`&params{...}`).
+func paramObjectOf(a ssa.Value) *ssa.Alloc {
+	switch x := a.(type) {
+	case *ssa.UnOp:
+		if al, ok := x.X.(*ssa.Alloc); ok && x.Op == token.MUL {
+			return al
+		}
+	case *ssa.Alloc:
+		if _, isStruct := derefType(x.Type()).Underlying().(*types.Struct); isStruct {
+			return x
+		}
+	}
+	return nil
 }
